@@ -1,7 +1,7 @@
 /-
-Revocation in the session tree (`SessionManager._revoke_tree` over the flat database): it reaches
-every node below the starting node through `subordinate` links, however deep, touches nothing else
-and never changes the shape of the tree.
+Revocation and deletion in the session tree (`SessionManager._revoke_tree`, `Database.delete_sub_tree`
+over the flat database): each reaches every node below the starting node through `subordinate` links,
+however deep, and touches nothing else; revocation never changes the shape of the tree.
 -/
 import IdpyVerif.Proofs.SessionDB
 namespace Idpy.SessionDB
@@ -224,5 +224,167 @@ theorem revokeTree_local (fuel : Nat) : ∀ (db : DB) (key : Str) (d : DB), revo
         rw [fold _ _ h h1 hsubs, hput]
       · rw [if_neg hin] at h
         cases h; exact hput
+
+/-! ### deletion of a subtree (`Database.delete_sub_tree`) -/
+
+/-- `a` holds nothing that `b` does not hold under the same key -/
+def Sub (a b : DB) : Prop := ∀ k n, lookup a k = some n → lookup b k = some n
+
+theorem Sub.refl (a : DB) : Sub a a := fun _ _ h => h
+theorem Sub.trans {a b c : DB} (h1 : Sub a b) (h2 : Sub b c) : Sub a c := fun k n h => h2 k n (h1 k n h)
+theorem Sub.none {a b : DB} (h : Sub a b) {k : Str} (hb : lookup b k = none) : lookup a k = none := by
+  cases ha : lookup a k with
+  | none => rfl
+  | some n => rw [h k n ha] at hb; cases hb
+
+theorem sub_del (d : DB) (k : Str) : Sub (del d k) d := by
+  intro x n h
+  by_cases e : x = k
+  · subst e; rw [lookup_del_eq] at h; cases h
+  · rwa [lookup_del_ne _ _ _ e] at h
+
+/-- the loop over the subordinates, as the model writes it -/
+def delFold (fuel : Nat) (subs : List Str) (acc : Option DB) : Option DB :=
+  subs.foldl (fun acc s => match acc with
+    | none => none
+    | some d => deleteSubTree fuel d s) acc
+
+theorem delFold_none (fuel : Nat) (subs : List Str) : delFold fuel subs none = none := by
+  induction subs with
+  | nil => rfl
+  | cons s rest ih => simpa [delFold] using ih
+
+theorem delFold_cons (fuel : Nat) (s : Str) (rest : List Str) (d : DB) :
+    delFold fuel (s :: rest) (some d) = delFold fuel rest (deleteSubTree fuel d s) := rfl
+
+theorem deleteSubTree_succ (fuel : Nat) (db : DB) (key : Str) :
+    deleteSubTree (fuel+1) db key =
+      match lookup db key with
+      | none => none
+      | some n => ((if isInner n then delFold fuel n.subs (some db) else some db)).map (fun d => del d key) := rfl
+
+/-- deletion only removes -/
+theorem sub_deleteSubTree (fuel : Nat) : ∀ (db : DB) (key : Str) (d : DB), deleteSubTree fuel db key = some d → Sub d db := by
+  induction fuel with
+  | zero => intro db key d h; simp [deleteSubTree] at h
+  | succ f ih =>
+    intro db key d h
+    rw [deleteSubTree_succ] at h
+    cases hl : lookup db key with
+    | none => rw [hl] at h; cases h
+    | some n =>
+      rw [hl] at h
+      simp only [Option.map_eq_some_iff] at h
+      obtain ⟨d0, hd0, rfl⟩ := h
+      refine (sub_del d0 key).trans ?_
+      by_cases hin : isInner n = true
+      · rw [if_pos hin] at hd0
+        have fold : ∀ (subs : List Str) (acc : DB), delFold f subs (some acc) = some d0 → Sub d0 acc := by
+          intro subs
+          induction subs with
+          | nil => intro acc hh; simp [delFold] at hh; subst hh; exact Sub.refl _
+          | cons s rest ihs =>
+            intro acc hh
+            rw [delFold_cons] at hh
+            cases hs : deleteSubTree f acc s with
+            | none => rw [hs, delFold_none] at hh; cases hh
+            | some acc' => rw [hs] at hh; exact (ihs acc' hh).trans (ih acc s acc' hs)
+        exact fold _ _ hd0
+      · rw [if_neg hin] at hd0
+        cases hd0; exact Sub.refl _
+
+theorem sub_delFold (f : Nat) (subs : List Str) (acc d : DB) (h : delFold f subs (some acc) = some d) : Sub d acc := by
+  induction subs generalizing acc with
+  | nil => simp [delFold] at h; subst h; exact Sub.refl _
+  | cons s rest ihs =>
+    rw [delFold_cons] at h
+    cases hs : deleteSubTree f acc s with
+    | none => rw [hs, delFold_none] at h; cases h
+    | some acc' => rw [hs] at h; exact (ihs acc' h).trans (sub_deleteSubTree f acc s acc' hs)
+
+theorem reach_sub {a b : DB} (h : Sub a b) {k x : Str} (hr : Reach a k x) : Reach b k x := by
+  induction hr with
+  | self k => exact Reach.self k
+  | @down k s x n hl hin hs _ ih => exact Reach.down (h k n hl) hin hs ih
+
+/-- **coverage**, measured in the database the deletion STARTED from (`db0`), while the recursion
+    runs on what is left of it (`acc`): whatever was at or below the node is gone — also when
+    branches share nodes -/
+theorem deleteSubTree_covers (fuel : Nat) : ∀ (db0 acc : DB) (key : Str) (d : DB), Sub acc db0 →
+    deleteSubTree fuel acc key = some d → ∀ x, Reach db0 key x → lookup d x = none := by
+  induction fuel with
+  | zero => intro db0 acc key d _ h; simp [deleteSubTree] at h
+  | succ f ih =>
+    intro db0 acc key d hsub h x hr
+    rw [deleteSubTree_succ] at h
+    cases hl : lookup acc key with
+    | none => rw [hl] at h; cases h
+    | some n =>
+      rw [hl] at h
+      simp only [Option.map_eq_some_iff] at h
+      obtain ⟨d0, hd0, rfl⟩ := h
+      cases hr with
+      | self => exact lookup_del_eq _ _
+      | @down _ s _ n' hl' hin hs hrs =>
+        have : n' = n := by
+          have := hsub key n hl
+          rw [hl'] at this; exact Option.some.inj this
+        subst this
+        rw [if_pos hin] at hd0
+        apply Sub.none (sub_del d0 key)
+        have fold : ∀ (subs : List Str) (a : DB), delFold f subs (some a) = some d0 → Sub a db0 → s ∈ subs → lookup d0 x = none := by
+          intro subs
+          induction subs with
+          | nil => intro a _ _ hm; cases hm
+          | cons s0 rest ihs =>
+            intro a hh ha hm
+            rw [delFold_cons] at hh
+            cases hs0 : deleteSubTree f a s0 with
+            | none => rw [hs0, delFold_none] at hh; cases hh
+            | some a' =>
+              rw [hs0] at hh
+              rcases List.mem_cons.mp hm with rfl | hm'
+              · exact Sub.none (sub_delFold f rest a' d0 hh) (ih db0 a s a' ha hs0 x hrs)
+              · exact ihs a' hh ((sub_deleteSubTree f a s0 a' hs0).trans ha) hm'
+        exact fold _ _ hd0 hsub hs
+
+/-- **locality**: what is not at or below the node is exactly as it was -/
+theorem deleteSubTree_local (fuel : Nat) : ∀ (db : DB) (key : Str) (d : DB), deleteSubTree fuel db key = some d →
+    ∀ x, ¬ Reach db key x → lookup d x = lookup db x := by
+  induction fuel with
+  | zero => intro db key d h; simp [deleteSubTree] at h
+  | succ f ih =>
+    intro db key d h x hnr
+    rw [deleteSubTree_succ] at h
+    cases hl : lookup db key with
+    | none => rw [hl] at h; cases h
+    | some n =>
+      rw [hl] at h
+      simp only [Option.map_eq_some_iff] at h
+      obtain ⟨d0, hd0, rfl⟩ := h
+      have hxk : x ≠ key := fun e => hnr (e ▸ Reach.self _)
+      rw [lookup_del_ne _ _ _ hxk]
+      by_cases hin : isInner n = true
+      · rw [if_pos hin] at hd0
+        have hsubs : ∀ s ∈ n.subs, ¬ Reach db s x := fun s hs hr => hnr (Reach.down hl hin hs hr)
+        have fold : ∀ (subs : List Str) (a : DB), delFold f subs (some a) = some d0 → Sub a db →
+            (∀ s ∈ subs, ¬ Reach db s x) → lookup d0 x = lookup a x := by
+          intro subs
+          induction subs with
+          | nil => intro a hh _ _; simp [delFold] at hh; subst hh; rfl
+          | cons s0 rest ihs =>
+            intro a hh ha hno
+            rw [delFold_cons] at hh
+            cases hs0 : deleteSubTree f a s0 with
+            | none => rw [hs0, delFold_none] at hh; cases hh
+            | some a' =>
+              rw [hs0] at hh
+              have hstep : lookup a' x = lookup a x :=
+                ih a s0 a' hs0 x (fun hr => hno s0 List.mem_cons_self (reach_sub ha hr))
+              rw [ihs a' hh ((sub_deleteSubTree f a s0 a' hs0).trans ha) (fun s hs => hno s (List.mem_cons_of_mem _ hs)), hstep]
+        exact fold _ _ hd0 (Sub.refl _) hsubs
+      · rw [if_neg hin] at hd0
+        cases hd0; rfl
+
 
 end Idpy.SessionDB
